@@ -157,6 +157,8 @@ class Registry:
                 sorts.append(TY.Obj)
             elif s_ == 'packet':
                 sorts += [z3.ArraySort(z3.StringSort(), z3.BoolSort()), z3.ArraySort(z3.StringSort(), TY.PVal)]
+            elif s_ == 'smap':
+                sorts += [z3.ArraySort(z3.StringSort(), z3.BoolSort()), z3.ArraySort(z3.StringSort(), TY.Obj)]
             elif s_ == 'cur':
                 sorts += [z3.IntSort(), z3.RealSort()]
             else:
@@ -173,6 +175,8 @@ class Registry:
             elif s_ == 'packet':
                 od = odict_of(I, a)
                 ts += [od.t['has'], od.t['val']]
+            elif s_ == 'smap':
+                ts += [a.t['has'], a.t['val']]
             elif s_ == 'cur':
                 if a.kind == 'none':
                     ts += [z3.IntVal(0), z3.RealVal(0)]
